@@ -70,6 +70,11 @@ class C14(PropBase):
                     # removal only: get_with(key=None ...) on the last key(s) of the Sid itself
                     ks = [k_ for k_, _ in natural(v, a.split(':')[-1].split('?')[0])[1]]
                     out.append(Case('get_with_kw', [['s', a], [[k_, []] for k_ in ks[-rng.randint(1, min(2, len(ks))):]]], 'frame-op', {}))
+                elif r < 0.52 and natural(v, a.split(':')[-1].split('?')[0]) and '?' not in a:
+                    # an optional ("~") value on a key the Sid has: through get_with(query=) and through the string form
+                    kk, vv = rng.choice(natural(v, a.split(':')[-1])[1])
+                    out.append(Case('get_with_q', [['s', a], kk + '=~' + rng.choice([vv, 'zzz', '*'])], 'frame-op', {}))
+                    out.append(Case('obs', [['s', a + '?' + kk + '=~' + rng.choice(['zzz', vv])]], 'frame-op', {}))
                 elif r < 0.6:
                     out.append(Case('get_with_kw', [['s', a], [[rng.choice(v.all_keys()), [rng.choice(gen.OPEN_VALUES)]]]], 'frame-op', {}))
                 elif r < 0.8:
